@@ -98,3 +98,18 @@ Print Assumptions C07_unstable_sort.
 Theorem C07_model_is_the_stable_instance : forall c mf ins, sorter_run c mf ins = gsorter_run sort_entries c mf ins.
 Proof. exact gsorter_run_stable. Qed.
 Print Assumptions C07_model_is_the_stable_instance.
+
+(* ================= chunks and outputs are valid writer inputs =================
+   with ANY merge function (pure or not), every chunk the sorter produces — by a spill or by a chunk
+   merge — and its final output have strictly ascending keys: the Writer they are streamed into never
+   hits its order assertion (C18) and the file reads back as exactly that list (C01), which is what
+   modelling a chunk file by the entries it holds relies on *)
+From Grenad.proofs Require Import SorterChunks.
+
+Theorem C07_chunks_sorted : forall c mf ins st, s_inserts c mf (s_new c) ins = Done st -> Forall ssorted (ss_chunks st).
+Proof. exact model_chunks_sorted. Qed.
+Print Assumptions C07_chunks_sorted.
+
+Theorem C07_output_sorted : forall c mf ins out, sorter_run c mf ins = Done out -> sorted_strictb (map fst out) = true.
+Proof. exact model_output_sorted. Qed.
+Print Assumptions C07_output_sorted.
